@@ -230,7 +230,46 @@ def suite_chunk(p):
         i += 1
     return out
 
+def suite_hist(p, rng, depth=2, sample=None):
+    """protocol-respecting histories: every sequence of <= depth macro steps of the panel's alphabet
+    (the same alphabet the Coq history theorems quantify over), followed by a probe sequence that
+    exercises every kind of check: full-frame update, display, clear in a colour, sleep/wake, update."""
+    import gen_specs
+    M = gen_specs.macros(p)
+    F = 2 * p.frame if p.name == 'epd7in5b_v2' else p.frame
+    colors = p.colors
+    out = []
+    seqs = [[]] + [[a] for a in M]
+    if depth >= 2:
+        seqs += [[a, b] for a in M for b in M]
+    if depth >= 3:
+        seqs += [[a, b, c] for a in M for b in M for c in M]
+    if sample is not None and len(seqs) > sample:
+        keep = seqs[:1 + len(M)]
+        rest = seqs[1 + len(M):]
+        step = max(1, len(rest) // (sample - len(keep)))
+        off = rng.below(step)
+        seqs = keep + rest[off::step]
+    for i, sq in enumerate(seqs):
+        ops = [['new']]
+        for m in sq:
+            ops += m
+        c = colors[i % len(colors)]
+        ops += [['update_frame', buf(F, 'r', 100 + i)], ['display_frame'],
+                ['set_background_color', c], ['clear_frame'],
+                ['sleep'], ['wake_up'], ['update_frame', buf(F, 'r', 200 + i)], ['display_frame']]
+        out.append(case("h%d" % i, p, ops))
+    return out
+
 def suite(p, name, rng):
+    if name == 'hist1':
+        return suite_hist(p, rng, depth=1)
+    if name == 'hist2':
+        return suite_hist(p, rng, depth=2, sample=400)
+    if name == 'hist2full':
+        return suite_hist(p, rng, depth=2)
+    if name == 'hist3':
+        return suite_hist(p, rng, depth=3, sample=3000)
     if name == 'chunk':
         return suite_chunk(p)
     if name == 'basic':
